@@ -19,6 +19,7 @@ use k256::{
         RecoveryId,
         VerifyingKey,
     },
+    elliptic_curve::ops::Reduce,
 };
 
 #[cfg(feature = "random")]
@@ -48,8 +49,15 @@ pub fn public_key(secret: &SecretKey) -> PublicKey {
 pub fn sign(secret: &SecretKey, message: &Message) -> [u8; 64] {
     let sk: k256::SecretKey = secret.into();
     let sk: ecdsa::SigningKey<k256::Secp256k1> = sk.into();
+    // RFC 6979 derives the nonce from `bits2octets(h)`, i.e. from the digest reduced
+    // modulo the group order, and libsecp256k1 (the `std` backend) does so. The `ecdsa`
+    // crate passes the digest to the nonce generator as is, so reduce it here to
+    // produce the same signature as the other backend for digests >= n. The signed
+    // value is the same, ECDSA reduces the digest anyway.
+    let reduced =
+        <k256::Scalar as Reduce<k256::U256>>::reduce_bytes(&(**message).into()).to_bytes();
     let (signature, _recid) = sk
-        .sign_prehash_recoverable(&**message)
+        .sign_prehash_recoverable(&reduced)
         .expect("Infallible signature operation");
 
     // TODO: this is a hack to get the recovery id. The signature should be normalized
